@@ -409,8 +409,8 @@ def explainer_classes(prog):
         if not c.module.name.startswith("ixai.explainer"):
             continue
         owner, m = prog.find_method(c, "explain_one")
-        if m is None:
-            continue
+        if m is None or c.name.startswith("_"):
+            continue            # private intermediate bases / mixins are analysed through their public subclasses
         body = [n for n in m.body if not (isinstance(n, ast.Expr) and isinstance(n.value, ast.Constant))]
         if len(body) == 1 and isinstance(body[0], ast.Raise):
             continue
@@ -475,6 +475,18 @@ def nonzero_test(g, totals):
     if n[0] == "cmp" and n[1] == "!=":
         return (n[2] in totals and const_value(n[3]) == 0) or (n[3] in totals and const_value(n[2]) == 0)
     return n in totals
+
+
+def nonempty_test(g, it):
+    """Is the guard just the test that the iterable of the loop it encloses is non-empty (`if xs:` /
+    `if len(xs) > 0:` around `for x in xs`)?  Such a guard never skips an iteration."""
+    s = ir.strip_sites
+    if s(g) == s(it):
+        return True
+    if g[0] == "cmp" and g[2][0] == "fn" and g[2][1] == "len" and g[2][2] and s(g[2][2][0]) == s(it):
+        c = const_value(g[3])
+        return (g[1] == ">" and c == 0) or (g[1] == ">=" and c == 1) or (g[1] == "!=" and c == 0)
+    return False
 
 
 def gate_on(t, cond):
